@@ -99,6 +99,85 @@ pub fn refsearch(line: &str) -> String {
     })
 }
 
+
+/// identity of a position for repetition purposes, as C06/C10 define it: placement, side, castling rights, e.p. FILE
+fn rep_key(b: &Bitboard) -> String {
+    let fen = fen_of(b);
+    let f: Vec<&str> = fen.split(' ').collect();
+    let ep = f[3].chars().next().unwrap_or('-');
+    format!("{} {} {} {}", f[0], f[1], f[2], ep)
+}
+
+/// repetition-aware reference (C10): the value of a node at ply > 0 is the draw score (+/- the contempt offset by ply parity)
+/// exactly when its position has then occurred at least three times among the reversible tail of game history + line.
+/// `hist` holds (key, half-move clock) of every earlier position, oldest first, the current node excluded.
+fn nm_hist(b: &mut Bitboard, d: usize, ply: usize, mut alpha: i32, beta: i32, hist: &mut Vec<String>, bud: &mut Budget) -> Option<i32> {
+    bud.nodes += 1;
+    if bud.nodes > bud.limit { return None; }
+    let key = rep_key(b);
+    if ply > 0 {
+        let window = (b.halfmove_clock as usize).min(hist.len());
+        let n = 1 + hist[hist.len() - window..].iter().filter(|k| **k == key).count();
+        if n >= 3 {
+            let (_, draw, _, _, contempt) = verif::constants();
+            return Some(draw + if ply % 2 == 0 { contempt } else { -contempt });
+        }
+    }
+    let mut legal = legal_moves(b);
+    if legal.is_empty() { return Some(factor(b) * verif::static_eval(b, false)); }
+    if d == 0 { return qs(b, alpha, beta, bud); }
+    legal.sort_by_key(|m| std::cmp::Reverse(m.mvvlva));
+    let mut best = -INF;
+    hist.push(key);
+    for m in legal {
+        b.make(m);
+        let v = nm_hist(b, d - 1, ply + 1, -beta, -alpha, hist, bud).map(|x| -x);
+        b.unmake(m);
+        let Some(v) = v else { hist.pop(); return None };
+        best = best.max(v);
+        if best >= beta { break; }
+        if best > alpha { alpha = best; }
+    }
+    hist.pop();
+    Some(best)
+}
+
+/// case: <fen> TAB <uci uci ...> TAB <depth>    obs: <value> | <score text> | <root moves attaining it> | <nodes>
+pub fn refsearch_hist(line: &str) -> String {
+    let line = line.to_string();
+    guarded(move || {
+        let f: Vec<&str> = line.split('\t').collect();
+        if f.len() != 3 { return "BADCASE".into(); }
+        let Ok(mut b) = Bitboard::from_fen_string(&unesc(f[0])) else { return "BADFEN".into() };
+        if !safe(&b) || !b.is_valid() { return "UNSAFE".into(); }
+        let mut hist: Vec<String> = Vec::new();
+        for u in f[1].split(' ').filter(|s| !s.is_empty()) {
+            hist.push(rep_key(&b));
+            if b.make_uci(u).is_err() { return "BADMOVE".into(); }
+        }
+        let d: usize = f[2].parse().unwrap_or(1);
+        let mut bud = Budget { nodes: 0, limit: 30_000_000 };
+        let legal = legal_moves(&mut b);
+        if legal.is_empty() {
+            let v = factor(&b) * verif::static_eval(&b, false);
+            return format!("{} | {} |  | 1", v, score_text(v, &b));
+        }
+        let root_key = rep_key(&b);
+        let mut vals = Vec::new();
+        hist.push(root_key);
+        for m in &legal {
+            b.make(*m);
+            let v = nm_hist(&mut b, d.saturating_sub(1), 1, -INF, INF, &mut hist, &mut bud).map(|x| -x);
+            b.unmake(*m);
+            match v { Some(v) => vals.push((m.to_uci_string(), v)), None => return "SKIP".into() }
+        }
+        let best = vals.iter().map(|x| x.1).max().unwrap();
+        let mut attaining: Vec<String> = vals.iter().filter(|x| x.1 == best).map(|x| x.0.clone()).collect();
+        attaining.sort();
+        format!("{} | {} | {} | {}", best, score_text(best, &b), attaining.join(","), bud.nodes)
+    })
+}
+
 /// case: <fen> TAB <uci uci ...>   obs: legal=<number of leading legal moves> final=<fen> check=<0/1> nomoves=<0/1>
 pub fn pvcheck(line: &str) -> String {
     let line = line.to_string();
